@@ -584,6 +584,16 @@ def model_env(hyps, extra_vars=(), solvers=('z3',), timeout=2.0, extra_asserts=(
     return env, r
 
 
+def snap_floats(env):
+    """Real-valued model entries become exactly representable floats (the concrete argument is a float)."""
+    for k, v in list(env.items()):
+        if isinstance(v, Fraction):
+            try:
+                env[k] = Fraction(float(v))
+            except OverflowError:
+                pass
+
+
 def holds(t, env, funs=REAL_FUNS):
     """True/False, or None if not evaluable (quantifiers, uninterpreted symbols)."""
     try:
@@ -659,6 +669,7 @@ def concolic_check(con, rec):
         return 'skipped', 'no model (%s)' % r['verdict']
     for v in input_vars(rec.args_in).values():
         env.setdefault(v.val, default_value(v.sort))
+    snap_floats(env)
     for t in rec.pc:
         h = holds(t, env)
         if h is False:
